@@ -28,8 +28,8 @@ def gen(w, rng, tier):
     for t in w.withref():
         n = t["n"]
         us = t["units"]
-        for i in range(n):
-            for j in range(n):
+        for (i, j) in w.pairs(t, rng):
+            if True:
                 ams = amounts(w.be, rng, 3)
                 si, sj = us[i]["scale_val"], us[j]["scale_val"]
                 for _ in range(per):
